@@ -106,7 +106,10 @@ def flavour(rng, cls):
         elem = rng.choice(ELEMS_PTR if cls[0] == "P" else ELEMS_COPY)
     else:
         elem = rng.choice(ELEMS_COPY + ELEMS_PTR)
-    return "%s:%s:%s:%s" % (cls, elem, rng.choice(CMPS), via)
+    # where the caller keeps the keys: p = separate storage, l = one slot per player overwritten in place (same address passed
+    # again), t = heap temporary freed right after the call (copy classes only: they must have copied the key)
+    store = rng.choice(["p", "l", "l"] if cls[0] == "P" else ["p", "l", "t", "t"])
+    return "%s:%s:%s:%s:%s" % (cls, elem, rng.choice(CMPS), via, store)
 
 def add_flavours(rng, cases, start):
     for i in range(start, len(cases)):
@@ -247,6 +250,12 @@ def api_surface():
         {"api": "ctor with the default comparator argument and default template argument Comparator = std::less<ValueType>", "called": g("cmp=df") > 0, "cases": g("cmp=df")},
         {"api": "LoserTreePointerBase(LoserTreePointerBase&&) = default (move construction, then use of the moved-to tree)", "called": g("via=m") > 0, "cases": g("via=m")},
         {"api": "insert_start(const ValueType* keyp, source, sup) with keyp != nullptr, sup = false", "called": True, "cases": sum(stats.values())},
+        {"api": "key storage: every key in its own storage, pointers into the sequences (as multiway_merge)", "called": g("store=p") > 0, "cases": g("store=p")},
+        {"api": "key storage: ONE slot per player, overwritten in place, the same address passed again to delete_min_insert (all 12 class/regime tags; "
+                "the pointer classes keep &slot[i])", "called": g("store=l") > 0,
+         "cases": {v: g(v + "/store=l") for v in sorted(stats)}},
+        {"api": "key storage: heap temporary freed right after insert_start / delete_min_insert returns (copy classes: the key must have been copied)",
+         "called": g("store=t") > 0, "cases": {v: g(v + "/store=t") for v in sorted(stats) if v[0] == "C"}},
         {"api": "insert_start(nullptr, source, true) (player exhausted from the start; guarded classes)", "called": g("insert_start(nullptr,i,true)") > 0, "cases": g("insert_start(nullptr,i,true)")},
         {"api": "init() / init_winner(root) (init_winner is public but only meaningful from init(); reached through init())", "called": True, "cases": sum(stats.values())},
         {"api": "min_source() after init() and after every delete_min_insert()", "called": True, "cases": sum(stats.values())},
@@ -312,8 +321,9 @@ else:
             stats[v] += 1
             kk = len(c.split()) - 2
             fl = c.split(" ", 1)[0].split(":")
-            if len(fl) == 4:
-                for tag in (fl[1], "cmp=" + fl[2], "via=" + fl[3], v[:2] + "/" + fl[1], v[:2] + "/cmp=" + fl[2]):
+            if len(fl) == 5:
+                for tag in (fl[1], "cmp=" + fl[2], "via=" + fl[3], v[:2] + "/" + fl[1], v[:2] + "/cmp=" + fl[2],
+                            "store=" + fl[4], v + "/store=" + fl[4]):
                     fstats[tag] = fstats.get(tag, 0) + 1
                 if fl[3] == "s":
                     fstats["switch->" + ("copy" if v[0] == "C" else "pointer") + ("" if v[1] == "G" else " unguarded")] = \
